@@ -1,0 +1,109 @@
+//go:build verif
+
+package netlist
+
+// Contracts for the deductive checker in /verif (comment-only file, no declarations).
+// The list is generic; it is verified at the one instantiation the repository uses (V = int, the label index of
+// the cache's client groups).
+
+// addresses are ordered as 128-bit numbers (high word first)
+//@ spec func lt(a Ipv6, b Ipv6) bool = a.h < b.h || (a.h == b.h && a.l < b.l)
+//@ spec func le(a Ipv6, b Ipv6) bool = a.h < b.h || (a.h == b.h && a.l <= b.l)
+
+//@ func (ip Ipv6) cmp(ip2 Ipv6) (r int)
+//@   props C07 C01
+//@   modifies nothing
+//@   ensures [C07:three-way-compare] (r < 0) == lt(ip, ip2) && (r > 0) == lt(ip2, ip) && -1 <= r && r <= 1
+
+//@ func (r *ipRange[V]) contains(ip Ipv6) (v V, ok bool)
+//@   props C07 C01
+//@   requires r != nil
+//@   modifies nothing
+//@   ensures [C07:inclusive-range] ok == (le(r.start, ip) && le(ip, r.end)) && (ok ==> v == r.v)
+
+// A built list: every range is non-empty, and the ranges are disjoint and in increasing order.
+//@ spec func rangeOK(r ipRange[int]) bool = le(r.start, r.end)
+//@ spec func listOK(l *List[int]) bool = forall(k, 0, len(l.e), le(l.e[k].start, l.e[k].end)) && forall(j, 0, len(l.e), forall(k, j+1, len(l.e), lt(l.e[j].end, l.e[k].start)))
+//@ spec func inRange(l *List[int], k int, ip Ipv6) bool = le(l.e[k].start, ip) && le(ip, l.e[k].end)
+
+// the predicate of the binary search: "the k-th range starts after ip"
+//@ closure List.Lookup$1
+//@   props C07 C01
+//@   requires l != nil && 0 <= i && i < len(l.e)
+//@   modifies nothing
+//@   ensures [C07:search-predicate-is-starts-after] ret0 == lt(ip, l.e[i].start)
+
+// Lookup: an address is found exactly when some range of the list contains it, and the value returned is that
+// range's. sort.Search is used by its documented contract for the predicate above (assumed): the index returned
+// is in [0, n], the predicate holds at it (when < n) and fails just before it (when > 0).
+//@ func (l *List[V]) Lookup(ip Ipv6) (v V, ok bool)
+//@   props C07 C01
+//@   requires l != nil && listOK(l)
+//@   assumecall Search: 0 <= ret0 && ret0 <= arg0 && (ret0 < arg0 ==> lt(ip, l.e[ret0].start)) && (ret0 > 0 ==> !lt(ip, l.e[ret0 - 1].start))
+//@   modifies nothing
+//@   callsite Search: [C07:search-over-the-whole-list] arg0 == len(l.e)
+//@   ensures [C07:found-iff-some-range-contains] ok == exists(k, 0, len(l.e), inRange(l, k, ip))
+//@   ensures [C07:value-of-the-containing-range] forall(k, 0, len(l.e), inRange(l, k, ip) ==> ok && v == l.e[k].v)
+
+// the builder only ever holds non-empty ranges
+//@ spec func builderOK(b *ListBuilder[int]) bool = forall(k, 0, len(b.b), le(b.b[k].start, b.b[k].end))
+
+//@ func addr2Ipv6(addr netip.Addr) (ip Ipv6)
+//@   trusted
+//@   modifies nothing
+//@   ensures ip == ipv6Of(addr)
+
+// Add: a range is accepted exactly when both ends are valid addresses and start <= end; an accepted range is
+// appended as given, a refused one changes nothing.
+//@ func (b *ListBuilder[V]) Add(start netip.Addr, end netip.Addr, v V) (ok bool)
+//@   props C07 C01
+//@   requires b != nil && builderOK(b)
+//@   ghost gS Ipv6 = nil
+//@   ghost gE Ipv6 = nil
+//@   ghost nConv int = 0
+//@   aftercall addr2Ipv6?: gS = (nConv == 0 ? ret0 : gS)
+//@   aftercall addr2Ipv6?: gE = (nConv == 1 ? ret0 : gE)
+//@   aftercall addr2Ipv6?: nConv = nConv + 1
+//@   modifies b.b, obj(b.b)
+//@   ensures builderOK(b)
+//@   ensures [C07:empty-or-invalid-range-refused] ok == (start.z != netip.z0 && end.z != netip.z0 && nConv == 2 && le(gS, gE))
+//@   ensures [C07:accepted-range-appended-as-given] ok ==> len(b.b) == old(len(b.b)) + 1 && b.b[len(b.b)-1].start == gS && b.b[len(b.b)-1].end == gE && b.b[len(b.b)-1].v == v
+//@   ensures [C07:earlier-ranges-kept] forall(k, 0, old(len(b.b)), b.b[k] == old(b.b[k]))
+//@   ensures !ok ==> len(b.b) == old(len(b.b))
+//@   callsite addr2Ipv6?: [C07:ends-of-this-range] (nConv == 0 ==> arg0 == start) && (nConv == 1 ==> arg0 == end)
+
+// the order Build sorts by: start address
+//@ closure ListBuilder.Build$1
+//@   props C07 C01
+//@   requires 0 <= i && i < len(rs) && 0 <= j && j < len(rs)
+//@   modifies nothing
+//@   ensures [C07:sorted-by-start] ret0 == lt(rs[i].start, rs[j].start)
+
+// Build: the list it returns is sorted and its ranges are disjoint (listOK) - overlapping input is an error, never
+// a list. sort.Slice is used by its documented contract for the order above (assumed): afterwards no later element
+// is less than an earlier one, and every element is one that was there before (ranges stay non-empty).
+//@ func (b *ListBuilder[V]) Build() (l *List[V], err error)
+//@   props C07 C01
+//@   requires b != nil && builderOK(b)
+//@   assumecall Slice: forall(j, 0, len(rs), forall(k, j+1, len(rs), !lt(rs[k].start, rs[j].start))) && forall(k, 0, len(rs), le(rs[k].start, rs[k].end))
+//@   modifies *
+//@   ensures [C07:built-list-is-sorted-and-disjoint] err == nil ==> l != nil && listOK(l)
+//@   ensures err != nil ==> l == nil
+//@   ensures [C07:no-range-lost] err == nil ==> len(l.e) == old(len(b.b))
+//@   loop 1:
+//@     invariant 0 <= i && len(rs) == old(len(b.b))
+//@     invariant forall(j, 0, len(rs), forall(k, j+1, len(rs), !lt(rs[k].start, rs[j].start))) && forall(k, 0, len(rs), le(rs[k].start, rs[k].end))
+//@     invariant forall(j, 0, i, lt(rs[j].end, rs[j+1].start))
+//@     decreases len(rs) - i
+
+// the 128-bit form of an address (IPv4 addresses in their IPv4-mapped form); netip.As16 is not modelled
+//@ spec func ipv6Of(a netip.Addr) Ipv6
+
+// LookupAddr: an invalid address is in no range; a valid one is looked up in its 128-bit form.
+//@ func (l *List[V]) LookupAddr(addr netip.Addr) (v V, ok bool)
+//@   props C07 C01
+//@   requires l != nil && listOK(l)
+//@   modifies nothing
+//@   ensures [C07:invalid-address-is-in-no-range] addr.z == netip.z0 ==> !ok
+//@   ensures [C07:found-iff-some-range-contains] addr.z != netip.z0 ==> ok == exists(k, 0, len(l.e), inRange(l, k, ipv6Of(addr)))
+//@   ensures [C07:value-of-the-containing-range] addr.z != netip.z0 ==> forall(k, 0, len(l.e), inRange(l, k, ipv6Of(addr)) ==> ok && v == l.e[k].v)
